@@ -22,7 +22,7 @@ def gen(rng, tier):
     periods = [(360.0, 0.0), (360.0, 180.0), (2.0, 0.0), (6.5, -1.25), (1.0, 0.5), (0.75, 10.0)]
     for k in range(n):
         lines = ["m.new 2"]
-        kind = rng.choice(["s", "p", "p", "pe", "w", "we", "v3", "vec", "u", "ue", "q", "qs", "qe", "is", "iv", "iu", "iq"])
+        kind = rng.choice(["s", "p", "p", "pe", "w", "we", "v3", "vec", "u", "ue", "q", "qs", "qe", "is", "iv", "iu", "iq", "iqe"])
         meta = {"kind": kind}
         nt = True
         if kind == "s":
@@ -79,6 +79,13 @@ def gen(rng, tier):
             b = [rng.uniform(-10, 10) for _ in range(m)]
             l = rng.choice([0.0, 1.0, rng.rand()])
             lines.append("v.interp v %d %s %s %s" % (m, " ".join(map(fbits, a)), " ".join(map(fbits, b)), fbits(l)))
+        elif kind == "iqe":
+            # the same rotation given by two quaternions of opposite sign, or twice by the same one
+            a = unit(rng, 4) if rng.rand() < 0.6 else rng.choice([[0.5, 0.5, 0.5, 0.5], [1.0, 0.0, 0.0, 0.0], [0.0, 0.6, 0.8, 0.0]])
+            b = [-x for x in a] if rng.rand() < 0.7 else list(a)
+            l = rng.choice([0.0, 1.0, 0.5, 0.25, rng.rand()])
+            lines.append("v.interp q %s %s %s" % (" ".join(map(fbits, a)), " ".join(map(fbits, b)), fbits(l)))
+            meta["same_rotation"] = {"a": a}
         elif kind in ("iu", "iq"):
             m = 3 if kind == "iu" else 4
             a, b = unit(rng, m), unit(rng, m)
@@ -167,8 +174,17 @@ def oracle(case, out):
             l = bits_to_f(t[off + 2 * m])
             if isinstance(ip[0], float) and l in (0.0, 1.0):
                 tgt = a if l == 0.0 else b
-                if any(abs(x - y) > 1e-9 for x, y in zip(ip, tgt)):
+                ok_ = all(abs(x - y) <= 1e-9 for x, y in zip(ip, tgt))
+                if t[1] == "q" and not ok_:      # q and -q are the same value
+                    ok_ = all(abs(x + y) <= 1e-9 for x, y in zip(ip, tgt))
+                if not ok_:
                     viol.append("interpolation at lambda=%r does not reach the end point" % l)
+            sr = case["meta"].get("same_rotation")
+            if sr and t[1] == "q":
+                if not (isinstance(ip[0], float) and all(x == x for x in ip)):
+                    viol.append("interpolation between two quaternions of the same rotation at lambda=%r gives %r" % (l, ip))
+                elif not (all(abs(x - y) <= 1e-9 for x, y in zip(ip, sr["a"])) or all(abs(x + y) <= 1e-9 for x, y in zip(ip, sr["a"]))):
+                    viol.append("interpolation between two quaternions of the same rotation at lambda=%r leaves that rotation: %r" % (l, ip))
     eq = case["meta"].get("equiv")
     if eq:
         d0 = fl(out, 2, "d2"); g = fl(out, 2, "g")
